@@ -532,7 +532,7 @@ func Gen(prop, tier string, seed, run uint64) Plan {
 		}
 		at := r.IntN(1 + len(mutOps)/3)
 		mutOps = append(mutOps[:at], append(pre, mutOps[at:]...)...)
-		if (prop == "C06" || prop == "C16") && r.IntN(3) == 0 {
+		if (prop == "C06" || prop == "C16") && r.IntN(2) == 0 {
 			// later the converter loses its last tag (its cache is dropped) after
 			// viewers converted streams on demand, also streams the tag never matched
 			mutOps = append(mutOps, Op{C: CMut, K: "SetConv", Name: name})
@@ -668,6 +668,10 @@ func Gen(prop, tier string, seed, run uint64) Plan {
 		if r.IntN(3) == 0 {
 			p.Restarts = append(p.Restarts, p.Restarts[0]+3+r.IntN(30))
 		}
+	}
+	if cfg.LateStarts && (prop == "C13" || prop == "C12" || prop == "C10" || prop == "C07") && r.IntN(3) == 0 {
+		// merge-heavy plan: the disk fills up while one of the merges writes its output
+		p.WriteFail = append(p.WriteFail, WriteFault{Kind: "merge", Seq: r.IntN(3), Limit: int64(200 + r.IntN(12000))})
 	}
 	if (prop == "C09" || prop == "C13" || prop == "C12" || prop == "C10" || prop == "C06") && r.IntN(5) == 0 {
 		// disk full while an import or merge writes its files
